@@ -152,6 +152,10 @@ def symbolic():
         # (a NAME as branch / jump target is an absolute position, i.e. a layout-dependent operand: exempt like labels, so no `beq R8, x0, K16` here)
         I('beq', 'beq R8, x0, 16', rs1=8, rs2=0, imm=16), I('bne', 'bne R9, zero, 4', rs1=9, rs2=0, imm=4), I('jal', 'jal RA, 16', rd=1, imm=16),
         I('sub', 'neg R8, R9', rd=8, rs1=0, rs2=9),
+        # a displacement written as an EXPRESSION of constants is the offset itself (layout-independent, unlike a bare name)
+        I('jal', 'jal x0, K4 * 2', rd=0, imm=8), I('jal', 'jal RA, K4 + K4', rd=1, imm=8), I('beq', 'beq R8, x0, K16 + K4', rs1=8, rs2=0, imm=20),
+        I('bne', 'bne R9, zero, (K16)', rs1=9, rs2=0, imm=16), I('jal', 'jal x0, %lo(K16)', rd=0, imm=16), I('beq', 'beq R8, x0, KM1 * 4', rs1=8, rs2=0, imm=-4),
+        I('jal', 'jal x0, 0 - K16', rd=0, imm=-16),
     ]
     for v, t in ((5, 'K4 + 1'), (4, 'K4'), (16, 'K16'), (-1, 'KM1'), (0x4000, 'K4 << 12'), (0x4004, '(K4 << 12) + K4')):
         for rd, rt in ((8, 'R8'), (1, 'RA'), (9, 'x9')):
